@@ -30,7 +30,7 @@ SPEC = {
 
 def plan(tier, seed):
     n = 16 if tier == "quick" else 64
-    shards = [{"seed": seed, "shard": i, "nshards": n, "tier": tier, "n": 14 if tier == "quick" else 60} for i in range(n)]
+    shards = [{"seed": seed, "shard": i, "nshards": n, "tier": tier, "n": 60 if tier == "quick" else 250} for i in range(n)]
     return shards
 
 
@@ -50,7 +50,15 @@ def gen_config(rng):
     kinds = {}
     for tag in ["B_" + oc for oc in OCS] + ["CLEAR"] + ["M_" + m["name"] for m in methods]:
         kinds[tag] = rng.choice(["expr", "expr_approve", "sub", "abisub"])
-    return {"bare": bare, "methods": methods, "kinds": kinds, "clear": rng.random() < .6,
+    # the same Python action object registered for several OnCompletions (with their own CallConfigs), also as clear_state
+    share = {}
+    active = [oc for oc in OCS if bare[oc] != "NEVER"]
+    if len(active) >= 2 and rng.random() < .35:
+        src = rng.choice(active)
+        for oc in active:
+            if oc != src and rng.random() < .6:
+                share[oc] = src
+    return {"bare": bare, "methods": methods, "kinds": kinds, "clear": rng.random() < .6, "bare_share": share,
             "versions": rng.sample([6, 7, 8, 9, 10], 2)}
 
 
@@ -73,7 +81,15 @@ def build_router(pt, cfg):
             return pt.Log(pt.Bytes(tag))
         return a
     CCs = pt.CallConfig
-    bca = pt.BareCallActions(**{oc: pt.OnCompleteAction(action=mk_action("B_" + oc), call_config=getattr(CCs, cc))
+    share = cfg.get("bare_share", {})
+    acts = {}
+
+    def bare_action(oc):
+        tag = "B_" + share.get(oc, oc)
+        if tag not in acts:
+            acts[tag] = mk_action(tag)
+        return acts[tag]
+    bca = pt.BareCallActions(**{oc: pt.OnCompleteAction(action=bare_action(oc), call_config=getattr(CCs, cc))
                                 for oc, cc in cfg["bare"].items() if cc != "NEVER"})
     cs = mk_action("CLEAR") if cfg["clear"] else None
     r = pt.Router("t", bca, clear_state=cs)
@@ -144,7 +160,9 @@ def check_config(pt, acc, cfg, only_call=None):
                 continue
             acc.evaluations += 1
             if sel is None:
-                exp = ["B_" + oc] if allows(cfg["bare"][oc], create) else None
+                exp = ["B_" + cfg.get("bare_share", {}).get(oc, oc)] if allows(cfg["bare"][oc], create) else None
+                if cfg.get("bare_share", {}).get(oc):
+                    acc.counters["shared_action_calls"] += 1
             elif m is None:
                 exp = None
             else:
